@@ -145,20 +145,27 @@ class Arm:
     """Selects switch edges: switches whose discriminant origin matches `origin_re`; `arms` is the
     set of arm labels ('0','1','otherwise',...) that are *selected*."""
 
-    def __init__(self, origin_re, arms, name=None):
+    def __init__(self, origin_re, arms, name=None, nth=None):
         self.origin_re = re.compile(origin_re)
         self.arms = set(arms) if not isinstance(arms, str) else {arms}
         self.name = name or "%s=>%s" % (origin_re, sorted(self.arms))
+        self.nth = nth  # pick the n-th matching switch in block order (0-based); None = all
 
     def switches(self, fn):
         out = []
-        for b in fn.blocks.values():
+        for idx in sorted(fn.blocks):
+            b = fn.blocks[idx]
             if b.cleanup or b.kind != "switch":
                 continue
             o = origin(fn, b.switch_local)
             if self.origin_re.search(o):
                 out.append(b)
+        if self.nth is not None:
+            out = out[self.nth:self.nth + 1]
         return out
+
+    def target_blocks(self, fn):
+        return [t for b in self.switches(fn) for (lab, t) in b.succs if lab in self.arms]
 
 
 class Graph:
@@ -496,10 +503,18 @@ class FnCheck:
 
     # FOLLOWS(A, B, exit): no path A ~> exit avoiding B
     def follows(self, A, B, exit="ok", assume=(), cut=(), exit_ev=None):
+        """A may be an Ev or an Arm (then the sources are the target blocks of the selected arms)."""
         if self.fn is None:
             return self.missing()
         X = exit_ev or exit_event(exit)
-        g = Graph(self.fn, [A, B, X])
+        if isinstance(A, Arm):
+            g = Graph(self.fn, [B, X])
+            tb = A.target_blocks(self.fn)
+            if not tb:
+                return Result("inconclusive", "arm %s matches no switch in %s" % (A.name, self.name))
+            g.ev_nodes[A.name] = [g.block_in[t] for t in tb if t in g.block_in]
+        else:
+            g = Graph(self.fn, [A, B, X])
         edges = _filtered_edges(g, assume, cut)
         okA, msg, q1, s1 = self._witness(g, edges, "A=" + A.name, A)
         if not okA:
@@ -523,8 +538,10 @@ class FnCheck:
     def never(self, B, assume=(), cut=(), frm=None, need_witness_without=True):
         if self.fn is None:
             return self.missing()
-        ms = [B] + ([frm] if frm else [])
+        ms = [B] + ([frm] if (frm and not isinstance(frm, Arm)) else [])
         g = Graph(self.fn, ms)
+        if isinstance(frm, Arm):
+            g.ev_nodes[frm.name] = [g.block_in[t] for t in frm.target_blocks(self.fn) if t in g.block_in]
         edges_all = g.edges
         edges = _filtered_edges(g, assume, cut)
         q = 0
